@@ -682,6 +682,190 @@ func mapTypes() {
 	}
 }
 
+// ---------------------------------------------------------------- element / collection TYPES
+
+type lang string
+type kind8 int8
+type point struct {
+	X, Y int
+	N    lang
+}
+type dict map[lang]kind8
+type langs []lang
+type feed <-chan lang
+type pipe chan lang
+
+func (l lang) String() string { return "lang:" + string(l) }
+
+func cmpMap[M ~map[K]V, K comparable, V any](id string, m M) {
+	if !only(id) {
+		return
+	}
+	res.Eval(1)
+	res.DistinctKey(id)
+	var want, got []string
+	for k, v := range m {
+		want = append(want, fmt.Sprintf("%#v=%#v", k, v))
+	}
+	p := safe(func() {
+		it := seq.NewMapIter(m)
+		for it.MoveNext() {
+			k, v := it.Current().Key, it.Current().Val
+			got = append(got, fmt.Sprintf("%#v=%#v", k, v))
+		}
+	})
+	sort.Strings(want)
+	sort.Strings(got)
+	if p != "" || !reflect.DeepEqual(want, got) {
+		res.Violate(id, "typed-map-multiset", fmt.Sprintf("%s: native %v iterator %v panic=%q", id, want, got, p), map[string]any{"probe": "itermodel", "only": id})
+	}
+}
+
+func cmpSlice[S ~[]E, E any](id string, s S) {
+	if !only(id) {
+		return
+	}
+	res.Eval(1)
+	res.DistinctKey(id)
+	var want, got []string
+	for i, v := range s {
+		want = append(want, fmt.Sprintf("%d=%#v", i, v))
+	}
+	p := safe(func() {
+		it := seq.NewSliceIter(s)
+		for it.MoveNext() {
+			i, v := it.Current().Key, it.Current().Val
+			got = append(got, fmt.Sprintf("%d=%#v", i, v))
+		}
+	})
+	if p != "" || !reflect.DeepEqual(want, got) {
+		res.Violate(id, "typed-slice-pairs", fmt.Sprintf("%s: native %v iterator %v panic=%q", id, want, got, p), map[string]any{"probe": "itermodel", "only": id})
+	}
+}
+
+func cmpString[S ~string](id string, s S) {
+	if !only(id) {
+		return
+	}
+	res.Eval(1)
+	res.DistinctKey(id)
+	var want, got []string
+	for i, r := range s {
+		want = append(want, fmt.Sprintf("%d=%#v", i, r))
+	}
+	p := safe(func() {
+		it := seq.NewStringIter(s)
+		for it.MoveNext() {
+			i, r := it.Current().Key, it.Current().Val
+			got = append(got, fmt.Sprintf("%d=%#v", i, r))
+		}
+	})
+	if p != "" || !reflect.DeepEqual(want, got) {
+		res.Violate(id, "typed-string-pairs", fmt.Sprintf("%s: native %v iterator %v panic=%q", id, want, got, p), map[string]any{"probe": "itermodel", "only": id})
+	}
+}
+
+func cmpChan[V any](id string, vals []V, iter func(ch chan V) []string) {
+	if !only(id) {
+		return
+	}
+	res.Eval(1)
+	res.DistinctKey(id)
+	var want []string
+	for _, v := range vals {
+		want = append(want, fmt.Sprintf("%#v", v))
+	}
+	ch := make(chan V, len(vals))
+	for _, v := range vals {
+		ch <- v
+	}
+	close(ch)
+	var got []string
+	p := safe(func() { got = iter(ch) })
+	if p != "" || !reflect.DeepEqual(want, got) {
+		res.Violate(id, "typed-chan-values", fmt.Sprintf("%s: sent %v iterator %v panic=%q", id, want, got, p), map[string]any{"probe": "itermodel", "only": id})
+	}
+}
+
+// typedCollections: the iterators over defined collection types and over element types of every kind
+// (the constructors are generic; whatever they special-case must agree with Go's range)
+func typedCollections() {
+	x, y := 1, 2
+	f1, f2 := func() int { return 1 }, func() int { return 2 }
+	c1 := make(chan int)
+	cmpMap("tmap:defined-string-key", map[lang]int{"go": 2, "rust": 4, "": 0})
+	cmpMap("tmap:defined-string-val", map[int]lang{1: "zig", 2: "", 3: "c"})
+	cmpMap("tmap:defined-map-type", dict{"a": -1, "b": 127})
+	cmpMap("tmap:defined-int8-key", map[kind8]kind8{-128: 127, 0: 0, 5: -5})
+	cmpMap("tmap:bool-key-float32-val", map[bool]float32{true: 1.5, false: -0.0})
+	cmpMap("tmap:complex-key", map[complex128]string{1 + 2i: "a", 0: "b"})
+	cmpMap("tmap:array-key-struct-val", map[[2]int]point{{1, 2}: {3, 4, "n"}, {0, 0}: {}})
+	cmpMap("tmap:struct-key-slice-val", map[point][]lang{{1, 2, "k"}: {"a", "b"}, {}: nil})
+	cmpMap("tmap:pointer-key-func-val", map[*int]func() int{&x: f1, &y: f2, nil: nil})
+	cmpMap("tmap:chan-key-map-val", map[chan int]map[lang]int{c1: {"a": 1}, nil: nil})
+	cmpMap("tmap:stringer-key-error-val", map[fmt.Stringer]error{lang("a"): fmt.Errorf("e"), lang("b"): nil, nil: nil})
+	cmpMap("tmap:any-key-holding-defined-strings", map[any]any{lang("x"): lang("y"), "x": "y", kind8(3): int8(3), nil: lang("")})
+	cmpMap("tmap:string-key-empty", map[string]string{"": "", "a": ""})
+	cmpMap("tmap:uint64-key-extremes", map[uint64]int64{0: -1 << 63, 1<<64 - 1: 1<<63 - 1})
+	cmpSlice("tslice:defined-slice-type", langs{"a", "", "ccc"})
+	cmpSlice("tslice:defined-string-elems", []lang{"x", "yy"})
+	cmpSlice("tslice:struct-elems", []point{{1, 2, "a"}, {}})
+	cmpSlice("tslice:pointer-elems", []*int{&x, nil, &y})
+	cmpSlice("tslice:func-elems", []func() int{f1, nil, f2})
+	cmpSlice("tslice:stringer-elems", []fmt.Stringer{lang("a"), nil, lang("")})
+	cmpSlice("tslice:nested-slices", [][]lang{{"a"}, nil, {}})
+	cmpSlice("tslice:array-elems", [][2]kind8{{1, -1}, {}})
+	cmpSlice("tslice:bytes", []byte("h\xc3\xa9\xff"))
+	cmpSlice("tslice:runes", []rune("h\u00e9\U0001F600"))
+	cmpSlice("tslice:empty-non-nil", []lang{})
+	cmpString("tstring:defined-type", lang("h\u00e9\xffy\u20ac"))
+	cmpString("tstring:defined-type-empty", lang(""))
+	cmpString("tstring:plain", "a\x80b\xc3")
+	cmpChan("tchan:bidirectional-defined-elems", []lang{"a", "", "b"}, func(ch chan lang) (out []string) {
+		it := seq.NewChanIter(ch)
+		for it.MoveNext() {
+			out = append(out, fmt.Sprintf("%#v", it.Current().Key))
+		}
+		return
+	})
+	cmpChan("tchan:receive-only", []lang{"a", "b"}, func(ch chan lang) (out []string) {
+		var ro <-chan lang = ch
+		it := seq.NewChanIter(ro)
+		for it.MoveNext() {
+			out = append(out, fmt.Sprintf("%#v", it.Current().Key))
+		}
+		return
+	})
+	cmpChan("tchan:defined-receive-only-type", []lang{"a", "b", "c"}, func(ch chan lang) (out []string) {
+		it := seq.NewChanIter(feed(ch))
+		for it.MoveNext() {
+			out = append(out, fmt.Sprintf("%#v", it.Current().Key))
+		}
+		return
+	})
+	cmpChan("tchan:defined-bidirectional-type", []lang{"z"}, func(ch chan lang) (out []string) {
+		it := seq.NewChanIter(pipe(ch))
+		for it.MoveNext() {
+			out = append(out, fmt.Sprintf("%#v", it.Current().Key))
+		}
+		return
+	})
+	cmpChan("tchan:struct-elems-with-zero-values", []point{{}, {1, 2, "a"}, {}}, func(ch chan point) (out []string) {
+		it := seq.NewChanIter(ch)
+		for it.MoveNext() {
+			out = append(out, fmt.Sprintf("%#v", it.Current().Key))
+		}
+		return
+	})
+	cmpChan("tchan:error-elems-with-nil", []error{nil, fmt.Errorf("e"), nil}, func(ch chan error) (out []string) {
+		it := seq.NewChanIter(ch)
+		for it.MoveNext() {
+			out = append(out, fmt.Sprintf("%#v", it.Current().Key))
+		}
+		return
+	})
+}
+
 // ---------------------------------------------------------------- channels
 
 func checkChans(rng *rand.Rand, n int) {
@@ -764,7 +948,7 @@ func checkChans(rng *rand.Rand, n int) {
 func main() {
 	plib.Flags()
 	rng := rand.New(rand.NewSource(plib.Seed))
-	res.Rule = "strings: every byte string up to the length bound over the 10-byte alphabet {a z C3 A9 E2 82 AC F0 9F FF} (exhaustive) + PRNG longer ones; non-trivial = contains a byte >= 0x80. ints: n in [-3,64] + PRNG. slices: all lengths <= bound x all single (and some double) mutation steps set/append/reslice/nil/grow at every iteration; non-trivial = mutated, len>1. maps: all key sets <= bound x delete/update/insert scripts + PRNG larger maps, typed cases with nil interface keys/values and NaN; channels: buffered+closed and unbuffered producer with nil elements. distinct = distinct input x script."
+	res.Rule = "strings: every byte string up to the length bound over the 10-byte alphabet {a z C3 A9 E2 82 AC F0 9F FF} (exhaustive) + PRNG longer ones; non-trivial = contains a byte >= 0x80. ints: n in [-3,64] + PRNG. slices: all lengths <= bound x all single (and some double) mutation steps set/append/reslice/nil/grow at every iteration; non-trivial = mutated, len>1. maps: all key sets <= bound x delete/update/insert scripts + PRNG larger maps, typed cases with nil interface keys/values and NaN; element / collection TYPES: 35 directed collections over defined map / slice / string / channel types (incl. receive-only and defined channel types) and elements of every kind (defined strings and ints, bool, float, complex, arrays, structs, pointers, funcs, channels, maps, interface types holding defined values and nil), compared with %#v; channels: buffered+closed and unbuffered producer with nil elements. distinct = distinct input x script."
 	res.Exhaustive = true
 	maxStr, maxSl, maxMap, nRandStr, nRandMap := 5, 5, 5, 3000, 300
 	if plib.Thorough() {
@@ -784,6 +968,7 @@ func main() {
 	sliceOther()
 	allMaps(maxMap, rng, nRandMap)
 	mapTypes()
+	typedCollections()
 	checkChans(rng, 6)
 	res.Extra["alphabet"] = fmt.Sprintf("% x", alphabet)
 	res.Extra["max_string_len_exhaustive"] = maxStr
